@@ -116,7 +116,7 @@ Definition bare_ok (name : list byte) : bool :=      (* a name printed without |
   match name with
   | [] => false
   | b :: r => token_first b && forallb token_byte r
-  end && negb (is_t name) && negb (is_nil_tok name).
+  end && negb (is_t name).
 (* A name that looks like a number is no longer a guard matter: Symbol.needPipes matches the name against the
    reader's number patterns and puts such names between bars (repo_fixes C03-3); the pretty printer writes
    symbols inside lists as it writes them elsewhere (repo_fixes C03-4); between bars | \ and control bytes are
